@@ -62,8 +62,16 @@ func (d *vDriver) ReceiveProbe(timeout time.Duration) (*ProbeResponse, error) {
 	}
 	if d.replies < d.maxReplies && len(d.sent) > 0 && V.Bool("reply") {
 		// a reply to one of the probes sent so far arrives after a symbolic part of the poll interval
-		wait := time.Duration(V.U32("wait"))
-		V.Assume(wait <= timeout)
+		var wait time.Duration
+		if V.ParamInt("waitSet", 0) == 1 {
+			// coarse delays: immediately, mid-interval, at the end of the poll interval
+			w := V.U8("waitChoice")
+			V.Assume(w <= 2)
+			wait = []time.Duration{0, timeout / 2, timeout}[V.Concretize(int(w))]
+		} else {
+			wait = time.Duration(V.U32("wait"))
+			V.Assume(wait <= timeout)
+		}
 		V.Sleep(wait)
 		k := V.U8("which")
 		V.Assume(int(k) < len(d.sent))
